@@ -158,60 +158,86 @@ func (x *Exec) specialise(st *State, cpu *PtrV, e Encoding) {
 	x.ghostSet(st, "Mem", M)
 }
 
-// armVC builds the obligation group of one encoding.
-func (ld *Loaded) armVC(e Encoding, o armOpts) (vc *VC, err error) {
+// vcOpts: how one obligation group of a contract is generated.
+type vcOpts struct {
+	name         string
+	useContracts bool
+	specialise   func(x *Exec, st *State, args []Value) // case split: pins parts of the symbolic pre-state
+	comps        map[string]bool                         // nil: all components of a [diff] clause
+	frame        bool
+	safety       bool
+	onlySafety   bool // drop the functional goals (cases the statement leaves open)
+	replay       *ReplaySpec
+	info         map[string]string
+}
+
+// contractVC generates the obligation group "body of c.Fn satisfies c" for one
+// case of a case split.  The union of the cases of a split must cover all
+// pre-states; that is argued where the split is defined.
+func (ld *Loaded) contractVC(c *Contract, o vcOpts) (vc *VC, err error) {
 	defer func() {
 		if r := recover(); r != nil {
 			if u, ok := r.(Unsupported); ok {
-				err = fmt.Errorf("UNSUPPORTED %s (arm %s)", u.Msg, e)
+				err = fmt.Errorf("UNSUPPORTED %s (%s)", u.Msg, o.name)
 				return
 			}
 			panic(r)
 		}
 	}()
-	c := ld.contracts["z80.(*CPU).executeOne"]
-	if c == nil {
-		return nil, fmt.Errorf("no contract for z80.(*CPU).executeOne")
-	}
 	x := NewExec(ld)
 	x.useContracts = o.useContracts
 	st := &State{h: Heap{}}
 	x.setupGhost(c.Fn.Pkg, st)
 	x.initPackage(c.Fn.Pkg, st)
 	inst := x.symbolicArgs(c.Fn, st)[0]
-	cpu := inst.args[0].(*PtrV)
-	x.specialise(st, cpu, e)
+	if o.specialise != nil {
+		o.specialise(x, st, inst.args)
+	}
 	pre := st.h.clone()
 	for _, cl := range c.Requires {
 		x.assume(x.evalPred(cl.Fn, inst.args, pre, st, nil, nil).(*Term))
 	}
+	x.pinBoolHyps(st)
+	pre = st.h.clone()
 	x.obligs = nil
 	mods := x.resolveMods(c.Modifies, inst.args, st, nil)
-	_, rst := x.run(c.Fn, inst.args, &State{h: st.h.clone()}, x.b.True())
+	rv, rst := x.run(c.Fn, inst.args, &State{h: st.h.clone(), facts: x.seedFacts}, x.b.True())
+	var results []Value
+	switch t := rv.(type) {
+	case nil:
+	case *TupleV:
+		results = t.E
+	default:
+		results = []Value{rv}
+	}
 	q := &Query{}
-	var want map[string]bool
-	if o.comps != nil {
-		want = o.comps(e)
+	// seeded facts must follow from the hypotheses of the case
+	for t, v := range x.seedFacts {
+		q.Goals = append(q.Goals, NamedTerm{"case-fact", x.b.Eq(t, v)})
 	}
 	names, bit := ld.components()
 	for i, cl := range c.Ensures {
-		r := x.evalPred(cl.Fn, inst.args, pre, rst, nil, nil).(*Term)
+		if o.onlySafety {
+			break
+		}
+		r := x.evalPred(cl.Fn, inst.args, pre, rst, nil, results).(*Term)
 		if cl.Label == "diff" {
-			{
-				d := r
-				for _, n := range names {
-					if want != nil && !want[n] {
-						continue
-					}
-					k := bit[n]
-					g := x.b.Eq(x.b.Extract(k, k, d), x.b.Const(1, 0))
-					if g.Op != "true" {
-						q.Goals = append(q.Goals, NamedTerm{n, g})
-					}
+			d := r
+			for _, n := range names {
+				if o.comps != nil && !o.comps[n] {
+					continue
 				}
-				q.Values = append(q.Values, NamedTerm{"diffmask", d})
-				continue
+				k := bit[n]
+				if k >= d.S.W {
+					continue
+				}
+				g := x.b.Eq(x.b.Extract(k, k, d), x.b.Const(1, 0))
+				if g.Op != "true" {
+					q.Goals = append(q.Goals, NamedTerm{n, g})
+				}
 			}
+			q.Values = append(q.Values, NamedTerm{"diffmask", d})
+			continue
 		}
 		name := fmt.Sprintf("ensures#%d", i)
 		if cl.Label != "" {
@@ -226,40 +252,140 @@ func (ld *Loaded) armVC(e Encoding, o armOpts) (vc *VC, err error) {
 		q.Goals = append(q.Goals, x.obligs...)
 	}
 	q.Hyps = x.hyps
-	// values needed to replay a counterexample
-	x.addReplayValues(q, pre, cpu)
-	vc = &VC{Name: "z80.(*CPU).executeOne/arm[" + e.String() + "]", Layer: "P", Query: q, B: x.b, Exec: x,
-		Info: map[string]string{"encoding": e.String(), "file": "arm_" + e.FileName()},
-		Replay: &ReplaySpec{Kind: "step", Enc: &e}}
+	// goals that are literally among the hypotheses are discharged by the simplifier
+	hyp := map[*Term]bool{}
+	for _, h := range x.hyps {
+		for _, cj := range splitAnd(h, nil) {
+			hyp[cj] = true
+		}
+	}
+	var goals []NamedTerm
+	for _, g := range q.Goals {
+		if !hyp[g.T] {
+			goals = append(goals, g)
+		}
+	}
+	q.Goals = goals
+	if cpu, ok := inst.args[0].(*PtrV); ok && x.gobj != nil {
+		x.addReplayValues(q, pre, cpu)
+	}
+	vc = &VC{Name: o.name, Layer: c.Layer, Query: q, B: x.b, Exec: x, Info: o.info, Replay: o.replay}
 	return vc, nil
 }
 
-// addReplayValues asks the solver for the cells of the unknown arrays that the
-// VC read (memory, port answers) next to the scalar unknowns.
+// pinBoolHyps: a hypothesis that is a bare boolean unknown (or its negation)
+// is substituted into the symbolic pre-state, so that the code's own tests of
+// it fold (cpu.Memory != nil, cpu.Interrupt != nil, …).
+func (x *Exec) pinBoolHyps(st *State) {
+	bind := map[*Term]*Term{}
+	var rest []*Term
+	for _, h := range x.hyps {
+		for _, cj := range splitAnd(h, nil) {
+			switch {
+			case cj.Op == "var":
+				bind[cj] = x.b.True()
+			case cj.Op == "not" && cj.Args[0].Op == "var":
+				bind[cj.Args[0]] = x.b.False()
+			default:
+				rest = append(rest, cj)
+			}
+		}
+	}
+	if len(bind) == 0 {
+		return
+	}
+	memo := map[*Term]*Term{}
+	for o, v := range st.h {
+		st.h[o] = x.substV(v, bind, memo)
+	}
+	x.hyps = nil
+	for _, r := range rest {
+		x.assume(x.b.Subst(r, bind, memo))
+	}
+}
+
+// armVC builds the obligation group of one encoding.
+func (ld *Loaded) armVC(e Encoding, o armOpts) (*VC, error) {
+	c := ld.contracts["z80.(*CPU).executeOne"]
+	if c == nil {
+		return nil, fmt.Errorf("no contract for z80.(*CPU).executeOne")
+	}
+	var comps map[string]bool
+	if o.comps != nil {
+		comps = o.comps(e)
+	}
+	enc := e
+	return ld.contractVC(c, vcOpts{
+		name: "z80.(*CPU).executeOne/arm[" + e.String() + "]", useContracts: o.useContracts,
+		specialise: func(x *Exec, st *State, args []Value) { x.specialise(st, args[0].(*PtrV), enc) },
+		comps:      comps, frame: o.frame, safety: o.safety,
+		replay: &ReplaySpec{Kind: "step", Enc: &enc},
+		info:   map[string]string{"encoding": e.String()},
+	})
+}
+
+// addReplayValues asks the solver for everything needed to rebuild the
+// pre-state concretely: every scalar leaf of the CPU object, the nil-ness of
+// its reference fields, the pending request, and the cells of the unknown
+// arrays (memory, port answers) that the VC actually read.
 func (x *Exec) addReplayValues(q *Query, pre Heap, cpu *PtrV) {
 	b := x.b
-	for name, idxs := range x.reads {
-		var arr *Term
-		gv := pre[x.gobj].(*StructV)
-		for _, f := range gv.F {
-			t, ok := f.(*Term)
-			if !ok {
-				continue
+	cv, ok := pre[cpu.Obj].(*StructV)
+	if !ok {
+		return
+	}
+	var walk func(v Value, t types.Type, gp string)
+	walk = func(v Value, t types.Type, gp string) {
+		switch u := v.(type) {
+		case *StructV:
+			st := t.Underlying().(*types.Struct)
+			for i := range u.F {
+				walk(u.F[i], st.Field(i).Type(), gp+"."+st.Field(i).Name())
 			}
-			r := t
-			for r.Op == "store" {
-				r = r.Args[0]
+		case *Term:
+			if u.S.K != 'a' {
+				q.Values = append(q.Values, NamedTerm{"pre:" + gp, u})
 			}
-			if r.Op == "var" && r.Name == name {
-				arr = r
+		case *IfaceV:
+			q.Values = append(q.Values, NamedTerm{"nil:" + gp, x.ifaceNil(u)})
+		case *PtrV:
+			q.Values = append(q.Values, NamedTerm{"nil:" + gp, x.ptrNil(u)})
+			if u.Obj != nil && strings.HasSuffix(gp, ".Interrupt") {
+				if iv, ok := pre[u.Obj].(*StructV); ok && len(iv.F) == 2 {
+					if t, ok := iv.F[0].(*Term); ok {
+						q.Values = append(q.Values, NamedTerm{"intr:Type", t})
+					}
+					if d, ok := iv.F[1].(*SliceV); ok && d.Obj != nil {
+						q.Values = append(q.Values, NamedTerm{"intr:Len", d.Len})
+						arr := x.getPath(pre[d.Obj], d.Path).(*Term)
+						for k := 0; k < 8; k++ {
+							q.Values = append(q.Values, NamedTerm{fmt.Sprintf("intr:Data:%d", k), b.Select(arr, b.Bin("bvadd", d.Off, b.Const(64, uint64(k))))})
+						}
+					}
+				}
 			}
 		}
-		if arr == nil {
+	}
+	walk(cv, x.ld.pkgs[modPath].Type("CPU").Type(), "cpu")
+	gv, ok := pre[x.gobj].(*StructV)
+	if !ok {
+		return
+	}
+	for fname, fi := range x.ld.ghostField {
+		arr, ok := gv.F[fi].(*Term)
+		if !ok || arr.S.K != 'a' {
 			continue
 		}
-		for k, ix := range idxs {
-			q.Values = append(q.Values, NamedTerm{fmt.Sprintf("cell:%s:%d:idx", name, k), ix})
-			q.Values = append(q.Values, NamedTerm{fmt.Sprintf("cell:%s:%d:val", name, k), b.Select(arr, ix)})
+		r := arr
+		for r.Op == "store" {
+			r = r.Args[0]
+		}
+		if r.Op != "var" {
+			continue
+		}
+		for k, ix := range x.reads[r.Name] {
+			q.Values = append(q.Values, NamedTerm{fmt.Sprintf("cell:%s:%d:idx", fname, k), ix})
+			q.Values = append(q.Values, NamedTerm{fmt.Sprintf("cell:%s:%d:val", fname, k), b.Select(arr, ix)})
 		}
 	}
 }
